@@ -14,6 +14,11 @@ func (f *frame) execInstr(in ssa.Instruction) {
 	case *ssa.DebugRef:
 		return
 	case *ssa.Alloc:
+		if f.deadVarargs(x) {
+			// argument array of an effect-free (logging/metrics/formatting) call: not modelled
+			f.env[x] = v.ctx.Fresh("deadargs", SRef)
+			return
+		}
 		r, st := v.allocZero(f.cur, "alloc:"+x.Comment, deref(x.Type()))
 		f.cur = st
 		f.env[x] = r
@@ -37,6 +42,10 @@ func (f *frame) execInstr(in ssa.Instruction) {
 		}
 		f.env[x] = sv.Get(x.Field)
 	case *ssa.IndexAddr:
+		if a, ok := x.X.(*ssa.Alloc); ok && f.deadVarargs(a) {
+			f.env[x] = UnitV{}
+			return
+		}
 		idx := asTerm(f.val(x.Index))
 		switch xv := f.val(x.X).(type) {
 		case SliceV:
@@ -262,7 +271,7 @@ func (f *frame) convert(x *ssa.Convert) Val {
 		return ToReal(t)
 	case fs == SReal && ts == SInt:
 		// Go truncates toward zero
-		return v.ctx.Define("trunc", T(SInt, "(ite (>= %s 0.0) (to_int %s) (- (to_int (- %s))))", t.S, t.S, t.S))
+		return v.truncOf(t)
 	}
 	v.note("conversion %s -> %s at %s not modelled: result unconstrained", from, to, v.pos(x.Pos()))
 	return v.freshVal("conv", to, f.cur)
@@ -336,6 +345,11 @@ func (f *frame) execTypeAssert(x *ssa.TypeAssert) {
 
 func (f *frame) execSlice(x *ssa.Slice) {
 	v := f.v
+	if a, ok := x.X.(*ssa.Alloc); ok && f.deadVarargs(a) {
+		at := deref(a.Type()).Underlying().(*types.Array)
+		f.env[x] = SliceV{B: asTerm(f.val(a)), O: IntLit(0), L: IntLit(at.Len()), C: IntLit(at.Len()), Elem: at.Elem()}
+		return
+	}
 	var lo, hi, mx Term
 	get := func(e ssa.Value) (Term, bool) {
 		if e == nil {
@@ -768,4 +782,56 @@ func (f *frame) zeroElems(sl SliceV) {
 		v.ctx.AssertRaw(fmt.Sprintf("(assert (forall ((r Ref)) (! (=> (not (= (elemBase %s) %s)) (= (select %s r) (select %s r))) :pattern ((select %s r)))))", base, sl.B.S, a2.S, a.S, a2.S))
 		f.cur = f.cur.with(ar.name, a2)
 	}
+}
+
+// deadVarargs: the alloc is the hidden array of a variadic call whose callee is
+// effect-free (its contents can influence nothing that is modelled).
+func (f *frame) deadVarargs(a *ssa.Alloc) bool {
+	if a.Comment != "varargs" {
+		return false
+	}
+	if d, ok := f.deadMemo[a]; ok {
+		return d
+	}
+	if f.deadMemo == nil {
+		f.deadMemo = map[*ssa.Alloc]bool{}
+	}
+	dead := true
+	for _, r := range *a.Referrers() {
+		switch u := r.(type) {
+		case *ssa.IndexAddr:
+			for _, r2 := range *u.Referrers() {
+				if st, ok := r2.(*ssa.Store); !ok || st.Addr != u {
+					dead = false
+				}
+			}
+		case *ssa.Slice:
+			for _, r2 := range *u.Referrers() {
+				switch c := r2.(type) {
+				case *ssa.Call:
+					if !f.v.eng.effectFree(c.Call.StaticCallee(), &c.Call) || f.v.eng.db.Funcs[f.calleeKey(&c.Call)] != nil {
+						dead = false
+					}
+				case *ssa.DebugRef:
+				default:
+					dead = false
+				}
+			}
+		case *ssa.DebugRef:
+		default:
+			dead = false
+		}
+	}
+	f.deadMemo[a] = dead
+	return dead
+}
+
+func (f *frame) calleeKey(call *ssa.CallCommon) string {
+	if fn := call.StaticCallee(); fn != nil {
+		return f.v.eng.funcKey(fn)
+	}
+	if call.IsInvoke() {
+		return f.v.eng.ifaceKey(call.Value.Type(), call.Method)
+	}
+	return ""
 }
